@@ -22,8 +22,29 @@ def run_part(ck):
     model = Model("drv_t12")
     jobs = []
     for product in PRODUCTS:
+        try:
+            one_product(ck, product, jobs)
+        except Exception as e:  # noqa
+            ck.fail("t2-vendor-unexpected-behaviour", "%s: the exploration ended with %s" % (product[0], exc_name(e)),
+                    {"product": product[0], "exception": repr(e)})
+    replies = model.ask_many([j[0] for j in jobs])
+    dis = 0
+    for (req, real, replay), rep in zip(jobs, replies):
+        if rep != real:
+            dis += 1
+            ck.fail("tie:t2-vendor-model-vs-nfcpy", "%s: model %r, implementation %r" % (replay["product"], rep[:300], real[:300]),
+                    dict(replay, model=rep[:3000], impl=real[:3000]))
+    ck.tie("Tlv model vs tt2_nxp product classes (offset, capacity, flags, skip set, commands, read-back)",
+           cases=len(jobs), disagreements=dis, exhaustive=False)
+
+
+def one_product(ck, product, jobs):
+    from sims.c01_vendor import VT2, vendor_layout, with_old
+    from sims.t12_run import read_line, show_cmds, hdr
+    rng = ck.rng
+    if True:
         name = product[0]
-        for rep in range(3 if ck.thorough else 1):
+        for rep in range(4 if ck.thorough else 2):
             lay = None
             for _ in range(30):
                 lay = vendor_layout(rng, product)
@@ -85,12 +106,3 @@ def run_part(ck):
                 elif back != (data, cap):
                     ck.fail("t12-roundtrip-mismatch", "%s: wrote %d bytes, fresh activation reads %s"
                             % (name, n, "None" if back is None else "%d bytes, capacity %d" % (len(back[0]), back[1])), replay)
-    replies = model.ask_many([j[0] for j in jobs])
-    dis = 0
-    for (req, real, replay), rep in zip(jobs, replies):
-        if rep != real:
-            dis += 1
-            ck.fail("tie:t2-vendor-model-vs-nfcpy", "%s: model %r, implementation %r" % (replay["product"], rep[:300], real[:300]),
-                    dict(replay, model=rep[:3000], impl=real[:3000]))
-    ck.tie("Tlv model vs tt2_nxp product classes (offset, capacity, flags, skip set, commands, read-back)",
-           cases=len(jobs), disagreements=dis, exhaustive=False)
